@@ -1,0 +1,13 @@
+//go:build verif
+
+package directive
+
+// VerifKeywordCoords exposes the keyword coordinates to the verification harness (read-only).
+func (d *Directive) VerifKeywordCoords() Coords {
+	return d.keywordCoords
+}
+
+// VerifEnd exposes the end index of a Coords value.
+func (c Coords) VerifEnd() uint {
+	return uint(c.end)
+}
